@@ -134,8 +134,16 @@ func do(p string, dir *migrate.LocalDir, s step) {
 		writeSum(p, l)
 	case "sum-edit-hash":
 		l := sumLines(p)
-		i := strings.Index(l[s.K], "h1:")
-		l[s.K] = flipB64(l[s.K], i+5)
+		editHash++
+		if s.K+1 < len(l) && l[s.K+1] != "" && editHash%2 == 0 {
+			// another way to damage the recorded hash: move its last character to the front of the next line's file name
+			// (the concatenation of all names and hashes - what the total in line 1 covers - stays the same)
+			n := len(l[s.K])
+			l[s.K], l[s.K+1] = l[s.K][:n-1], l[s.K][n-1:]+l[s.K+1]
+		} else {
+			i := strings.Index(l[s.K], "h1:")
+			l[s.K] = flipB64(l[s.K], i+5)
+		}
 		writeSum(p, l)
 	case "sum-edit-name":
 		l := sumLines(p)
@@ -238,8 +246,8 @@ func replay(path string) {
 // ---------------------------------------------------------------- byte neighbourhood (C->S)
 
 type absFile struct {
-	N   string `json:"n"`
-	C   string `json:"c"` // content id or "ign"
+	N string `json:"n"`
+	C string `json:"c"` // content id or "ign"
 }
 type absEntry struct {
 	N    string    `json:"n"`
@@ -261,6 +269,7 @@ type event struct {
 	Out     string    `json:"out"`
 	Changed bool      `json:"changed"` // informational: the abstraction differs from the pristine one
 	Op      string    `json:"op"`
+	Writer  bool      `json:"writer"` // the observation follows `migrate hash` (WriteSumFile(Checksum())) on this directory
 }
 
 // isIgnored: the documented rule for `atlas:sum ignore` -- a directive on the very first line of the file:
@@ -477,6 +486,11 @@ func bytesMode(out string, maxFiles int) {
 							fa, sa := w.abstract(p, dict)
 							now, _ := json.Marshal([]any{fa, sa})
 							emit(event{Ev: "obs", C: ncase, Files: fa, Sum: sa, Out: validate(dir), Changed: string(now) != string(pristine), Op: fmt.Sprintf("move %d->%d in %s", pos, q, t)})
+							// `migrate hash` on the tampered directory: whatever the sum file looked like, the writer leaves a valid directory
+							if cs, err := dir.Checksum(); err == nil && migrate.WriteSumFile(dir, cs) == nil {
+								fw, sw := w.abstract(p, dict)
+								emit(event{Ev: "obs", C: ncase, Files: fw, Sum: sw, Out: validate(dir), Changed: false, Writer: true, Op: fmt.Sprintf("hash after move %d->%d in %s", pos, q, t)})
+							}
 						}
 					}
 				}
@@ -503,6 +517,23 @@ func bytesMode(out string, maxFiles int) {
 				emit(event{Ev: "obs", C: ncase, Files: fa, Sum: sa, Out: validate(dir), Changed: true})
 				must(os.Remove(np))
 			}
+			// a migration file that is a symbolic link to a file kept elsewhere: a file of the directory like any other
+			{
+				target := filepath.Join(root, fmt.Sprint("shared", ncase, ".sql"))
+				must(os.WriteFile(target, []byte("CREATE TABLE shared (id int);\n"), 0o644))
+				np := filepath.Join(p, "1_link.sql")
+				must(os.Symlink(target, np))
+				fa, sa := w.abstract(p, dict)
+				emit(event{Ev: "obs", C: ncase, Files: fa, Sum: sa, Out: validate(dir), Changed: true, Op: "add symlinked file"})
+				if cs, err := dir.Checksum(); err == nil && migrate.WriteSumFile(dir, cs) == nil {
+					// hashed with the link in place, then the link's target is edited: detected like any content change
+					must(os.WriteFile(target, []byte("CREATE TABLE shared (id int, x int);\n"), 0o644))
+					fa, sa = w.abstract(p, dict)
+					emit(event{Ev: "obs", C: ncase, Files: fa, Sum: sa, Out: validate(dir), Changed: true, Op: "edit target of symlinked file"})
+				}
+				must(os.Remove(np))
+				must(os.Remove(target))
+			}
 			os.RemoveAll(p)
 		}
 	}
@@ -510,6 +541,8 @@ func bytesMode(out string, maxFiles int) {
 	f.Close()
 	json.NewEncoder(os.Stdout).Encode(map[string]any{"events": nev, "directories": ncase, "outcomes": outs, "samples": sample})
 }
+
+var editHash int
 
 func main() {
 	switch os.Args[1] {
